@@ -51,7 +51,13 @@ func who(n string) string {
 	return alice
 }
 
-func baseClass(n string) string { return vp.String(n, 1, 2, "dn") }
+// baseClass: a native class name: 1..2 letters, or a name that merely starts with the path marker "nft".
+func baseClass(n string) string {
+	if vp.Bool(n + ".startsWithMarker") {
+		return "nft" + vp.String(n+".rest", 0, 1, "dx")
+	}
+	return vp.String(n, 1, 2, "dn")
+}
 
 func decode(p packettypes.Packet) (types.NonFungibleTokenPacketData, bool) {
 	var d types.NonFungibleTokenPacketData
